@@ -559,3 +559,183 @@ _jobs_vrange = jobs
 
 def jobs(tier):
     return _jobs_vrange(tier) + [(h_slice_generate, ('range',), 900), (h_slice_generate, ('at',), 900)]
+
+
+# ------------------------------------------------------------------------------------------------ C18: lazy projection of a virtual array
+@guard
+def h_virtual_fields():
+    """VirtualArray::getitem_fields(keys) on an array with a declared form and nothing cached: the generator is not run; the answer is a new
+    virtual array that will apply exactly that projection to this very array, and the depths it remembers (purelist_depth / minmax_depth /
+    branch_depth answered without materialising) are those of the *projected* form - what form.getitem_fields(keys) reports - not of the whole
+    record"""
+    from .cpp01 import struct_of, vtable_slots
+    mod = module_of(VA)
+    fo, sz, al, fields = mod.types.struct_layout(struct_of(mod, '_ZNK7awkward12VirtualArray5arrayEv'))
+    fslots, nf = vtable_slots(module_of('src/libawkward/array/RecordArray.cpp'), 'N7awkward10RecordFormE')
+    slot = lambda frag: [k for s_, k in fslots.items() if frag in s_][0]
+    trace = []
+
+    def s_gen(eng, fr, ins, st, name, argv):
+        trace.append(('generate', st.pc))
+        rec = st.mem.o[argv[0].obj]
+        rec.cells[argv[0].off] = (Ptr('generated', 0), 8); rec.cells[argv[0].off + 8] = (NULL, 8)
+        return None
+
+    def which(p):
+        objs = [q.obj for g, q in ptr_cases(p) if q.obj is not None]
+        if len(objs) != 1 or objs[0] not in ('wholeform', 'projform'):
+            raise Unsupported('form pointer %s' % (p,))
+        return objs[0]
+    DEPTHS = {'wholeform': (21, 22, 23, 1, 24), 'projform': (11, 12, 13, 0, 14)}
+    asked = []
+
+    def s_form_fields(eng, fr, ins, st, name, argv):
+        sret, selfp, keys = argv
+        asked.append((st.pc, which(selfp), keys))
+        rec = st.mem.o[sret.obj]
+        rec.cells[sret.off] = (Ptr('projform', 0), 8); rec.cells[sret.off + 8] = (NULL, 8)
+        return None
+    stubs = dict(COMMON_STUBS)
+    stubs.update({'_ZN7awkward14ArrayGenerator18generate_and_checkEv': s_gen,
+                  '_ZN7awkward9check_keyERKNSt7__cxx1112basic_stringIcSt11char_traitsIcESaIcEEE': lambda *a: z3.BitVecVal(0, 32),
+                  '_ZN7awkward6kernel25fully_qualified_cache_keyENS0_3libERKNSt7__cxx1112basic_stringIcSt11char_traitsIcESaIcEEE': nodeh.s_empty_string,
+                  '_ZNK7awkward12VirtualArray9cache_keyB5cxx11Ev': nodeh.s_empty_string,
+                  '_ZN7awkward10ArrayCache6newkeyB5cxx11Ev': nodeh.s_empty_string, '_ZN7awkward10ArrayCache8next_keyB5cxx11Ev': nodeh.s_empty_string,
+                  '_ZNSt7__cxx1112basic_stringIcSt11char_traitsIcESaIcEEC1ERKS4_': nodeh.s_empty_string, '_ZNSt7__cxx1112basic_stringIcSt11char_traitsIcESaIcEEC2ERKS4_': nodeh.s_empty_string,
+                  '_ZNSt7__cxx1112basic_stringIcSt11char_traitsIcESaIcEE12_M_constructIPcEEvT_S7_St20forward_iterator_tag': stub_noop_keep,
+                  'vf$form%d' % slot('14getitem_fieldsE'): s_form_fields,
+                  'vf$form%d' % slot('14purelist_depthEv'): lambda eng, fr, ins, st, name, argv: BV(DEPTHS[which(argv[0])][0]),
+                  'vf$form%d' % slot('12minmax_depthEv'): lambda eng, fr, ins, st, name, argv: [BV(DEPTHS[which(argv[0])][1]), BV(DEPTHS[which(argv[0])][2])],
+                  'vf$form%d' % slot('12branch_depthEv'): lambda eng, fr, ins, st, name, argv: [z3.BitVecVal(DEPTHS[which(argv[0])][3], 8), BV(DEPTHS[which(argv[0])][4])]})
+    m = MCtx([VA, AG, 'src/libawkward/Slice.cpp', 'src/libawkward/Content.cpp', 'src/libawkward/Identities.cpp', 'src/cpu-kernels/kernel-utils.cpp', 'src/libawkward/kernel-dispatch.cpp',
+              'src/libawkward/virtual/ArrayCache.cpp'], unwind=12, stubs=stubs)
+    L = m.bv('declared_length')
+    m.assume(L >= 0, L <= 2 ** 40)
+    m.record('generated', {0: (NULL, 8)}, const=True)
+    m.record('formvt', {8 * j: (Ptr(('func', 'vf$form%d' % j), 0), 8) for j in range(nf)}, const=True)
+    for nm in ('wholeform', 'projform'):
+        m.record(nm, {0: (Ptr('formvt', 0), 8), 8: (NULL, 8)}, const=True)
+    m.record('genvt', {8 * j: (Ptr(('func', 'vf$gen%d' % j), 0), 8) for j in range(8)}, const=True)
+    m.record('gen', {0: (Ptr('genvt', 0), 8), 8: (Ptr('wholeform', 0), 8), 16: (NULL, 8), 24: (NULL, 8), 32: (NULL, 8), 40: (L, 8)}, const=True)          # {vptr, form_, inferred_form_ = null, length_}
+    cells = {0: (NULL, 8), fo[1]: (Ptr('gen', 0), 8), fo[1] + 8: (NULL, 8), fo[2]: (NULL, 8), fo[2] + 8: (NULL, 8)}
+    st0 = State({}, m.mem, z3.BoolVal(True))
+    vt = m.eng.global_ptr(st0, '@_ZTVN7awkward12VirtualArrayE', mod)
+    cells[0] = (Ptr(vt.obj, 16), 8)
+    cells.update({8: (NULL, 8), 16: (NULL, 8)})
+    nodeh_empty_map(cells, 24, 'va')
+    vecfield = None
+    for k_ in range(len(fo)):
+        if fields[k_].strip() == 'i32':
+            cells[fo[k_]] = (z3.BitVecVal(0, 32), 4)
+        if 'basic_string' in fields[k_]:
+            cells.update({fo[k_]: (Ptr('va', fo[k_] + 16), 8), fo[k_] + 8: (BV(0), 8), fo[k_] + 16: (z3.BitVecVal(0, 8), 1)})
+        if 'std::vector' in fields[k_] and fo[k_] not in cells:
+            cells.update({fo[k_]: (NULL, 8), fo[k_] + 8: (NULL, 8), fo[k_] + 16: (NULL, 8)})
+            vecfield = fo[k_]
+    this = m.record('va', cells, const=True)
+    from .mnode import _string_cells
+    kc = {}
+    _string_cells(kc, 0, 'keysbuf', 'x')
+    m.record('keysbuf', kc, const=True)
+    keys = m.record('keysvec', {0: (Ptr('keysbuf', 0), 8), 8: (Ptr('keysbuf', 32), 8), 16: (Ptr('keysbuf', 32), 8)}, const=True)
+    m.record('ret', {})
+    cands = sorted([f for mod_ in m.eng.mods for f in mod_.func_src if f.startswith('_ZNK7awkward12VirtualArray14getitem_fieldsERKSt6vector')], key=len)
+    out = m.call(cands[0], [Ptr('ret', 0), this, keys])
+    ran = z3.Or([t[1] for t in trace] + [z3.BoolVal(False)])
+    obls = [('lazy projection does not raise', out.raised), ('the generator is not run by projecting', ran),
+            ('the declared form is asked for its projection onto the same keys', z3.BoolVal(not asked or any(w != 'wholeform' for _, w, _k in asked)))]
+    for g, q in ptr_cases(m.cell('ret', 0)):
+        if q.obj is None:
+            obls.append(('an array is returned', z3.And(g, z3.Not(out.raised))))
+            continue
+        o = out.mem.o[q.obj]
+        if vecfield is None:
+            raise Unsupported('no vector field (cache_depths_) found in VirtualArray')
+        vb, ve = o.cells[q.off + vecfield][0], o.cells[q.off + vecfield + 8][0]
+        bc = [c for _, c in ptr_cases(vb) if c.obj is not None]
+        ec = [c for _, c in ptr_cases(ve) if c.obj is not None]
+        if len(bc) != 1 or len(ec) != 1:
+            obls.append(('the answer remembers its depths', g)); continue
+        buf = out.mem.o[bc[0].obj]
+        n = nodeh.concrete(ec[0].off - bc[0].off if not isinstance(ec[0].off, int) else BV(ec[0].off - (bc[0].off if isinstance(bc[0].off, int) else 0)), 'number of remembered depths')
+        vals = []
+        if hasattr(buf, 'arr'):
+            vals = [z3.simplify(z3.Select(buf.arr, bc[0].off + i)) for i in range(n)]
+        else:
+            vals = [buf.cells[bc[0].off + 8 * i][0] for i in range(n // 8)]
+        if len(vals) != 5:
+            obls.append(('five depths are remembered (purelist, min, max, branching, branch depth), not %d' % len(vals), g)); continue
+        for i, (v, w, nm_) in enumerate(zip(vals, DEPTHS['projform'], ('purelist_depth', 'min depth', 'max depth', 'branching flag', 'branch depth'))):
+            obls.append(('the remembered %s is that of the projected form' % nm_, z3.And(g, v != w)))
+    def replay(model, ent):
+        import subprocess, os
+        from . import fullnative
+        try:
+            exe = fullnative.link_driver(NATIVE_FIELDS, 'virtfields')
+        except Exception as e:      # noqa
+            return False, 'replay driver did not build: %s' % str(e)[-400:], {}
+        r = subprocess.run([exe], capture_output=True, text=True, timeout=30,
+                           env=dict(os.environ, ASAN_OPTIONS='detect_leaks=0', UBSAN_OPTIONS='halt_on_error=1:exitcode=87'), errors='replace')
+        payload = dict(native=r.stdout.strip())
+        if r.returncode != 0:
+            return True, 'virtual array of records {x: int64, y: var * float64}, projected lazily onto x: %s' % (r.stdout.strip() or r.stderr[-200:]), payload
+        return False, 'native VirtualArray agrees (%s)' % r.stdout.strip(), payload
+    return mdischarge(m, 'VirtualArray::getitem_fields (declared form, nothing cached)', obls, [], replay=replay,
+                      extra=dict(bounds='declared length 0..2^40; the form and its projection are test doubles answering fixed distinct depths; one key'))
+
+
+NATIVE_FIELDS = r"""
+#include <cstdio>
+#include <cstdlib>
+#include <stdexcept>
+#include <string>
+#include "awkward/virtual/ArrayGenerator.h"
+#include "awkward/virtual/ArrayCache.h"
+#include "awkward/array/VirtualArray.h"
+#include "awkward/array/NumpyArray.h"
+#include "awkward/array/ListOffsetArray.h"
+#include "awkward/array/RecordArray.h"
+#include "awkward/Index.h"
+#include "awkward/Slice.h"
+using namespace awkward;
+static int generated = 0;
+class Gen : public ArrayGenerator {
+public:
+  Gen(const FormPtr& f): ArrayGenerator(f, 3) { }
+  const ContentPtr generate() const override { generated++; throw std::runtime_error("not needed"); }
+  void caches(std::vector<ArrayCachePtr>&) const override { }
+  const std::string tostring_part(const std::string&, const std::string&, const std::string&) const override { return ""; }
+  const std::shared_ptr<ArrayGenerator> shallow_copy() const override { return std::make_shared<Gen>(form_); }
+  const std::shared_ptr<ArrayGenerator> with_form(const FormPtr& f) const override { return std::make_shared<Gen>(f); }
+  const std::shared_ptr<ArrayGenerator> with_length(int64_t) const override { return shallow_copy(); }
+  bool referentially_equal(const std::shared_ptr<ArrayGenerator>&) const override { return false; }
+};
+int main() {
+  FormKey nokey(nullptr);
+  FormPtr ints = std::make_shared<NumpyForm>(false, util::Parameters(), nokey, std::vector<int64_t>(), 8, "l", util::dtype::int64);
+  FormPtr floats = std::make_shared<NumpyForm>(false, util::Parameters(), nokey, std::vector<int64_t>(), 8, "d", util::dtype::float64);
+  FormPtr lists = std::make_shared<ListOffsetForm>(false, util::Parameters(), nokey, Index::Form::i64, floats);
+  util::RecordLookupPtr names = std::make_shared<util::RecordLookup>(); names->push_back("x"); names->push_back("y");
+  FormPtr rec = std::make_shared<RecordForm>(false, util::Parameters(), nokey, names, std::vector<FormPtr>({ints, lists}));
+  VirtualArray va(Identities::none(), util::Parameters(), std::make_shared<Gen>(rec), ArrayCachePtr(nullptr));
+  int bad = 0;
+  try {
+    for (int which = 0; which < 2; which++) {
+      ContentPtr out = va.getitem_fields(std::vector<std::string>({which == 0 ? "x" : "y"}));
+      std::pair<int64_t, int64_t> mm = out.get()->minmax_depth();
+      std::pair<bool, int64_t> br = out.get()->branch_depth();
+      int64_t want = which == 0 ? 1 : 2;
+      printf("%s: purelist_depth %lld minmax (%lld, %lld) branch (%d, %lld) generated %d; ", which == 0 ? "x" : "y", (long long)out.get()->purelist_depth(), (long long)mm.first, (long long)mm.second, (int)br.first, (long long)br.second, generated);
+      if (mm.first != want || mm.second != want || br.first || br.second != want || generated) bad = 1;
+    }
+  } catch (std::exception& e) { printf("raised %.80s", e.what()); bad = 1; }
+  printf("\n"); fflush(stdout); _Exit(bad);
+}
+"""
+
+
+_jobs_before_fields = jobs
+
+
+def jobs(tier):
+    return _jobs_before_fields(tier) + [(h_virtual_fields, (), 1800)]
